@@ -134,6 +134,8 @@ def run(ctx):
                  'DB function no longer builds the specimen with the '
                  'expected state / updates only the state through '
                  'update_on_match', ctx.loc(dbf))
+    from mstatic.rules import shared as _shc
+    _shc.cas_primitive_reports_loss(ctx, r1)
     # attribute stores to .state
     n_stores = 0
     for q, f in sorted(prog.funcs.items()):
